@@ -10,6 +10,7 @@ inductive PyExc where
   | runtimeError
   | indexError
   | keyError
+  | typeError      -- a `None` result used as a number
   | outOfFuel      -- a `while` loop used up the fuel it was given: the Python loop had not ended after that many rounds
 deriving DecidableEq, Repr
 
